@@ -127,7 +127,7 @@ func (m *MemoryInstance) ReadUint16Le(offset uint32) (uint16, bool) {
 	if !m.hasSize(offset, 2) {
 		return 0, false
 	}
-	return binary.LittleEndian.Uint16(m.Buffer[offset : offset+2]), true
+	return binary.LittleEndian.Uint16(m.Buffer[offset:]), true
 }
 
 // ReadUint32Le implements the same method as documented on api.Memory.
@@ -163,7 +163,9 @@ func (m *MemoryInstance) Read(offset, byteCount uint32) ([]byte, bool) {
 	if !m.hasSize(offset, uint64(byteCount)) {
 		return nil, false
 	}
-	return m.Buffer[offset : offset+byteCount : offset+byteCount], true
+	// The end is computed in 64 bits: offset+byteCount is 2^32 at the end of a 65536-page memory.
+	end := uint64(offset) + uint64(byteCount)
+	return m.Buffer[offset:end:end], true
 }
 
 // WriteByte implements the same method as documented on api.Memory.
@@ -343,7 +345,7 @@ func (m *MemoryInstance) readUint32Le(offset uint32) (uint32, bool) {
 	if !m.hasSize(offset, 4) {
 		return 0, false
 	}
-	return binary.LittleEndian.Uint32(m.Buffer[offset : offset+4]), true
+	return binary.LittleEndian.Uint32(m.Buffer[offset:]), true
 }
 
 // readUint64Le implements ReadUint64Le without using a context. This is extracted as both ints and floats are stored in
@@ -352,7 +354,7 @@ func (m *MemoryInstance) readUint64Le(offset uint32) (uint64, bool) {
 	if !m.hasSize(offset, 8) {
 		return 0, false
 	}
-	return binary.LittleEndian.Uint64(m.Buffer[offset : offset+8]), true
+	return binary.LittleEndian.Uint64(m.Buffer[offset:]), true
 }
 
 // writeUint32Le implements WriteUint32Le without using a context. This is extracted as both ints and floats are stored
